@@ -2,10 +2,13 @@
 //! held while later items are received; at the end every held `&str` is compared with the copy taken
 //! when it was yielded.
 //!
-//! Line: `alias F <frame>* G <group size>* O <offset of the borrowed bytes in a frame> => <same|diff>*`
-//! (replies arrive in groups: one transport read per group). Total size stays below the first growth
-//! step so that no reallocation happens (reading through a dangling reference would be undefined
-//! behaviour; the model covers reallocation, the run does not provoke it).
+//! Line: `alias F <frame>* G <group size>* O <offset of the borrowed bytes in a frame> => <same|diff>@<d>*`
+//! (replies arrive in groups: one transport read per group); `<d>` is the address of the item's
+//! borrowed bytes minus that of the first item's: items that lie in one unmoved buffer are at the
+//! distances their frames dictate. Total size stays at or below the first growth step, so the pinned
+//! code never reallocates; should a change make it reallocate, the harness allocator
+//! (`moving_alloc.rs`) moves the block and keeps the old one mapped and unchanged, so the move shows in
+//! `<d>` and no recycled memory is ever read.
 
 use crate::common::*;
 use crate::rx::{E2, M1, P2};
@@ -49,25 +52,45 @@ pub fn run_case(names: &[String], groups: &[usize]) -> Vec<String> {
             }
         }
     }
-    held.iter().map(|(r, copy)| if r.parameters().map(|p| p.name) == Some(copy.as_str()) { "same".to_string() } else { "diff".to_string() }).collect()
+    let p0 = held.first().and_then(|(r, _)| r.parameters().map(|p| p.name.as_ptr() as i64)).unwrap_or(0);
+    held.iter()
+        .map(|(r, copy)| {
+            let d = r.parameters().map(|p| p.name.as_ptr() as i64 - p0).unwrap_or(0);
+            format!("{}@{d}", if r.parameters().map(|p| p.name) == Some(copy.as_str()) { "same" } else { "diff" })
+        })
+        .collect()
 }
 
 pub fn main(o: &Opts) {
     let mut rng = Rng::new(o.seed ^ 0x616c6961);
     let mut em = Emitter::new(o.index);
+    crate::moving_alloc::MOVING.store(true, std::sync::atomic::Ordering::Relaxed);
     let n = if o.thorough() { 20_000 } else { 1500 };
-    for _ in 0..n {
+    for case in 0..n {
         let k = rng.range(2, 6);
         // names of different lengths so that overwrites hit different ranges; total stays < 250 bytes
         let budget = 250 / k - (PRE.len() + 4);
-        let names: Vec<String> = (0..k).map(|i| {
+        let mut names: Vec<String> = (0..k).map(|i| {
             let l = rng.range(1, budget.max(2));
             (0..l).map(|j| (b'a' + ((i * 7 + j) % 26) as u8) as char).collect()
         }).collect();
+        // every fifth case: pad the last name so that the whole batch is exactly 250..=256 bytes on the
+        // wire (the edge of the first growth step)
+        let exact = case % 5 == 0;
+        if exact {
+            let total: usize = names.iter().map(|n| PRE.len() + n.len() + 4).sum();
+            let want = 250 + rng.below(7);
+            if want > total {
+                let last = names.last_mut().unwrap();
+                for j in 0..want - total {
+                    last.push((b'A' + (j % 26) as u8) as char);
+                }
+            }
+        }
         let mut groups = vec![];
         let mut left = k;
         while left > 0 {
-            let g = if rng.chance(1, 3) { left } else { rng.range(1, left) };
+            let g = if rng.chance(1, 3) || (exact && rng.chance(2, 3)) { left } else { rng.range(1, left) };
             groups.push(g);
             left -= g;
         }
